@@ -14,6 +14,12 @@
   these generated functions compute, for every list of sizes and every argument, exactly what the
   hand-written model functions compute — by induction over the list with a loop invariant
   (generalised over the index, the running position and the files collected so far).
+
+  Second batch: `get_piece_indexes_of_file` (both values of `exclusive`),
+  `get_absolute_piece_indexes` and `get_relative_piece_indexes` as whole functions (lists of
+  integers, `remove`, `in`, `xs[0]` / `xs[-1]`, a set that is added to and sorted, a loop over a
+  list of integers): `C11_kernel_loop_piece_indexes_of_file*`,
+  `C11_kernel_loop_absolute_piece_indexes`, `C11_kernel_loop_relative_piece_indexes`.
 -/
 import Torf.Generated.Kernels
 import Torf.Model.Geometry
